@@ -219,6 +219,18 @@ def templates(rng):
     MA = _dc(m, "MutA", {"b": Optional["MutB"]}, {"b": None})
     MB = _dc(m, "MutB", {"a": Optional[MA], "n": Optional[SR]}, {"a": None, "n": None})
     out.append(("mutually recursive dataclasses", MA, [MA(MB(MA(), SR(1)))], {"self-reference"}))
+    # a field-level serialization_strategy whose serialize returns a container: applied to the field only
+    from mashumaro.types import SerializationStrategy
+
+    class _MonthParts(SerializationStrategy):
+        def serialize(self, value: datetime.date) -> List[int]:
+            return [value.year, value.month]
+
+        def deserialize(self, value: List[int]) -> datetime.date:
+            return datetime.date(value[0], value[1], 1)
+
+    FS = _dc(m, "FieldStrat", {"month": datetime.date, "n": int}, {"month": dataclasses.field(metadata=field_options(serialization_strategy=_MonthParts())), "n": 0}, kw_only=True)
+    out.append(("field-level serialization_strategy returning a container", FS, [FS(month=datetime.date(2024, 2, 1), n=3)], {"overridden-serialization"}))
     # classes that serialize themselves (SerializableType), dataclasses included: written as what _serialize returns
     from mashumaro.types import SerializableType
 
